@@ -699,7 +699,7 @@ func (p *Path) invokeMethod(recv Value, m *types.Func, args []Value, site ssa.In
 	case *NativeObj:
 		return pv.Call(p, m.Name(), args, site)
 	}
-	fn := p.E.Prog.LookupMethod(iv.T, m.Pkg(), m.Name())
+	fn := p.lookupMethod(iv.T, m.Pkg(), m.Name())
 	if fn == nil {
 		p.unsupported("no method %s on %s", m.Name(), iv.T)
 	}
@@ -867,4 +867,16 @@ func (p *Path) concretize(t *smt.Term, what string, site ssa.Instruction) int {
 		p.goPanicAt(site, "%s: negative value", what)
 	}
 	panic(stopPath{kind: "unwind", msg: fmt.Sprintf("%s: symbolic value exceeds concretization bound %d at %s", what, lim, p.posOf(site))})
+}
+
+// lookupMethod is a non-panicking Program.LookupMethod.
+func (p *Path) lookupMethod(T types.Type, pkg *types.Package, name string) *ssa.Function {
+	if T == nil || types.IsInterface(T) {
+		return nil
+	}
+	sel := p.E.Prog.MethodSets.MethodSet(T).Lookup(pkg, name)
+	if sel == nil {
+		return nil
+	}
+	return p.E.Prog.MethodValue(sel)
 }
